@@ -25,7 +25,8 @@ NT_RULE = ('directed cases enumerate type_dict exhaustively: per quantity type a
            'distinct = distinct canonical JSON of the case')
 REQUIRED_ORACLES = ['T1', 'T2', 'T3', 'T4', 'T5', 'T6', 'T7', 'T8']
 REQUIRED_PROBES = ['convert_unit']
-REQUIRED_CLASSES = ['formula:plain', 'formula:zero_count', 'formula:leading_zero', 'formula:both']
+REQUIRED_CLASSES = ['R:candidate_keys_probed', 'cross:num=empty_list', 'cross:num=empty_tuple', 'cross:num=none', 'cross:num=array',
+                    'formula:plain', 'formula:zero_count', 'formula:leading_zero', 'formula:both']
 ASSUMPTIONS = ['unit strings = keys of pmutt.constants.type_dict; constant-table keys as documented in '
                'the accessor docstrings',
                'T5 tolerance = rounding of the tabulated literal: 5e-6 (six significant digits) in general, '
@@ -227,9 +228,17 @@ def _cross(spec, ctx):
     from pmutt import constants as c
     u = spec['unit']
     ctx.nontrivial()
-    for v in spec['others']:
+    import numpy as np
+    # the refusal does not depend on the number handed over (or on there being one)
+    nums = [('float', 1.0), ('zero', 0), ('none', None), ('array', np.array([1.0, 2.0])), ('empty_array', np.array([])),
+            ('empty_list', []), ('empty_tuple', ()), ('list', [2.0]), ('negative', -2.5)]
+    for j, v in enumerate(spec['others']):
         ctx.raises('T4', (ValueError,), {'u': u, 'v': v}, c.convert_unit, num=1.0, initial=u, final=v)
         ctx.raises('T4', (ValueError,), {'u': v, 'v': u}, c.convert_unit, num=1.0, initial=v, final=u)
+        nm, num = nums[j % len(nums)]
+        ctx.cls('cross:num=' + nm)
+        ctx.raises('T4', (ValueError,), {'num': nm}, c.convert_unit, num=num, initial=u, final=v)
+        ctx.raises('T4', (ValueError,), {'num': nm, 'omitted': True}, c.convert_unit, initial=v, final=u)
 
 
 def _si(spec, ctx):
@@ -294,6 +303,35 @@ def _const(spec, ctx):
                     w = ctx.call('T6', m, c.convert_unit, num=rj / c.Na, initial='J', final=e)
                 if w is not core.NOVALUE:
                     ctx.close('T6', v / w, 1.0, TOL_TABLE, dict(m, what='via_convert_unit'), got=v, want=w)
+        # keys the tree under test tabulates BEYOND the sixteen of the unchanged table (the table is local to
+        # R()): every spelling 'energy/mol/K', 'energy/K', 'volume pressure/mol/K' built from the unit tables is
+        # offered; a key the function accepts is a tabulated value and must equal its SI value
+        cand = set()
+        for e in sorted(U.SI['energy']):
+            cand.update((e + '/mol/K', e + '/K'))
+        for v_ in sorted(U.SI['volume']):
+            for p_ in sorted(U.SI['pressure']):
+                cand.update(('%s %s/mol/K' % (v_, p_), '%s %s/mol/K' % (p_, v_)))
+        n_new = 0
+        for k in sorted(cand - set(R_KEYS)):
+            try:
+                v = c.R(k)
+            except Exception:
+                continue                      # not tabulated
+            n_new += 1
+            m = {'table': 'R', 'key': 'beyond_the_16_original_keys'}
+            try:
+                if k.count(' ') == 1 and k.split(' ')[0] in U.SI['pressure']:
+                    p_, rest = k.split(' ')
+                    want = U.R_in('%s %s/mol/K' % (rest.split('/')[0], p_))
+                else:
+                    want = U.R_in(k)
+            except KeyError:
+                ctx.inconc('T6', 'tabulated key without SI definition in the reference', key=k)
+                continue
+            ctx.close('T6', v / want, 1.0, TOL_CODATA, m, key=k, got=v, want=want)
+        ctx.cls('R:candidate_keys_probed')
+        ctx.extra['R_keys_beyond_original'] = n_new
     elif tab == 'kb':
         kj = ctx.call('T6', {'table': 'kb', 'key': 'J/K'}, c.kb, 'J/K')
         for k in KB_KEYS:
